@@ -75,6 +75,12 @@ fn clock_bytes() -> [u8; 40] {
     b
 }
 thread_local! { static EPOCH: RefCell<u64> = const { RefCell::new(10) }; }
+thread_local! { static ANCHOR_ONLY: RefCell<bool> = const { RefCell::new(false) }; }
+/// C12: bypass the Pinocchio routing table and dispatch every instruction to the Anchor handlers
+/// (which still exist for the six Pinocchio-served instructions but are unreachable in production).
+pub fn set_anchor_only(b: bool) {
+    ANCHOR_ONLY.with(|c| *c.borrow_mut() = b);
+}
 pub fn set_epoch(e: u64) {
     EPOCH.with(|c| *c.borrow_mut() = e);
 }
@@ -390,7 +396,8 @@ unsafe fn dispatch_entry(input: *mut u8) -> u64 {
             };
         }
     }
-    if let Some((_, h)) = table.iter().find(|t| data.starts_with(t.0)) {
+    let anchor_only = ANCHOR_ONLY.with(|c| *c.borrow());
+    if let Some((_, h)) = table.iter().find(|t| !anchor_only && data.starts_with(t.0)) {
         let parsed = core::slice::from_raw_parts(accounts.as_ptr() as *const pinocchio::account_info::AccountInfo, count);
         return match h(parsed, data) {
             Ok(()) => 0,
@@ -398,9 +405,63 @@ unsafe fn dispatch_entry(input: *mut u8) -> u64 {
         };
     }
     let (program_id, accounts, data) = solana_program::entrypoint::deserialize(input);
+    if anchor_only {
+        if let Some(r) = anchor_liquidity_entry(program_id, &accounts, data) {
+            return match r {
+                Ok(()) => 0,
+                Err(e) => {
+                    e.log();
+                    ProgramError::from(e).into()
+                }
+            };
+        }
+    }
     match whirlpool::entry(program_id, &accounts, data) {
         Ok(()) => 0,
         Err(e) => e.into(),
+    }
+}
+
+/// C12: what Anchor's generated dispatcher would do for the four liquidity instructions whose Anchor
+/// handlers still exist (`instructions::{increase,decrease}_liquidity::handler`, v1 and v2) but whose
+/// `#[program]` entries are `unreachable!()` because the entrypoint serves them with Pinocchio.
+fn anchor_liquidity_entry<'info>(program_id: &Pubkey, accounts: &'info [AccountInfo<'info>], data: &[u8]) -> Option<anchor_lang::Result<()>> {
+    use anchor_lang::{Accounts, AccountsExit, AnchorDeserialize, Bumps, Discriminator};
+    use whirlpool::instruction as wi;
+    use whirlpool::instructions as h;
+    if data.len() < 8 {
+        return None;
+    }
+    let (disc, mut ixd) = (&data[..8], &data[8..]);
+    let mut reallocs = std::collections::BTreeSet::new();
+    let mut remaining: &[AccountInfo<'info>] = accounts;
+    macro_rules! run {
+        ($accts:ty, $args:ty, $call:expr) => {{
+            let args = match <$args>::deserialize(&mut ixd) {
+                Ok(a) => a,
+                Err(_) => return Some(Err(anchor_lang::error::ErrorCode::InstructionDidNotDeserialize.into())),
+            };
+            let mut bumps = <$accts as Bumps>::Bumps::default();
+            let mut accts = match <$accts>::try_accounts(program_id, &mut remaining, ixd, &mut bumps, &mut reallocs) {
+                Ok(a) => a,
+                Err(e) => return Some(Err(e)),
+            };
+            let ctx = anchor_lang::context::Context::new(program_id, &mut accts, remaining, bumps);
+            #[allow(clippy::redundant_closure_call)]
+            let r: anchor_lang::Result<()> = $call(ctx, args);
+            Some(r.and_then(|_| accts.exit(program_id)))
+        }};
+    }
+    if disc == wi::IncreaseLiquidity::DISCRIMINATOR {
+        run!(h::ModifyLiquidity, wi::IncreaseLiquidity, |ctx, a: wi::IncreaseLiquidity| h::increase_liquidity::handler(ctx, a.liquidity_amount, a.token_max_a, a.token_max_b))
+    } else if disc == wi::DecreaseLiquidity::DISCRIMINATOR {
+        run!(h::ModifyLiquidity, wi::DecreaseLiquidity, |ctx, a: wi::DecreaseLiquidity| h::decrease_liquidity::handler(ctx, a.liquidity_amount, a.token_min_a, a.token_min_b))
+    } else if disc == wi::IncreaseLiquidityV2::DISCRIMINATOR {
+        run!(h::ModifyLiquidityV2, wi::IncreaseLiquidityV2, |ctx, a: wi::IncreaseLiquidityV2| h::v2::increase_liquidity::handler(ctx, a.liquidity_amount, a.token_max_a, a.token_max_b, a.remaining_accounts_info))
+    } else if disc == wi::DecreaseLiquidityV2::DISCRIMINATOR {
+        run!(h::ModifyLiquidityV2, wi::DecreaseLiquidityV2, |ctx, a: wi::DecreaseLiquidityV2| h::v2::decrease_liquidity::handler(ctx, a.liquidity_amount, a.token_min_a, a.token_min_b, a.remaining_accounts_info))
+    } else {
+        None
     }
 }
 
